@@ -25,6 +25,7 @@ def run(ctx, rep):
         check_rec(crate, rep, cfg)
         check_same(crate, rep, cfg)
         check_bind(crate, rep, cfg)
+        check_getter(crate, rep, cfg)
 
 
 WRITERS = {
@@ -348,3 +349,42 @@ def check_bind(crate, rep, cfg):
     ok = ok and bool(vl) and all(l.kind == "param" and l.detail == 4 for l in vl)
     rep.add("C05.BIND", "C05.BIND:rest-and-body-when-present", ok, b.where(kinds["rest"][0][0]), "the rest map is bound only when a rest name is declared; `body` is bound only when a "
             "body was passed and is that body" + ("" if ok else " — VIOLATED"))
+
+
+def check_getter(crate, rep, cfg):
+    """C05.BIND (caller side) — build_context assumes that every key it is given has a value (`unreachable!` otherwise) and decides
+    provided/missing on get_value alone: at both call sites the getter is the plain `map.get(key).cloned()` of the very map whose keys are
+    handed over — no filtering between the map and the Option it answers."""
+    ALLOWED = ("::get", "::cloned", "::clone", "::as_str", "::as_ref", "::borrow", "::deref", "::into", "::from")
+    n = 0
+    for b in crate.bodies.values():
+        if b.kind == "const":
+            continue
+        for bb, t in b.calls():
+            if not callee_def(t).endswith("ComponentDefinition::build_context"):
+                continue
+            n += 1
+            rep.analysed(b)
+            tr = Tracer(b)
+            root = crate.root_of(b)
+            # the getter closure
+            cls = [st["rv"]["def"] for b2, i2, st in b.stmts() if i2 != "t" and st.get("k") == "assign" and st["rv"]["k"] == "agg" and st["rv"].get("ak") == "closure"
+                   and any(l.kind == "agg" and l.detail[-2:] == (b2, i2) for l in tr.operand(t["args"][2]))]
+            ok = len(cls) == 1 and cls[0] in crate.bodies
+            why = "getter closure not found"
+            if ok:
+                cb = crate.bodies[cls[0]]
+                calls = [callee_def(t2) for b2, t2 in cb.calls()]
+                bad = [c for c in calls if not c.endswith(ALLOWED)]
+                gets = [c for c in calls if c.endswith("::get")]
+                ok = not bad and len(gets) == 1 and not any(cb.term(x)["k"] == "switch" for x in cb.reachable)
+                why = "the getter does more than `map.get(key).cloned()`: calls %s%s" % (sorted(set(bad))[:3], ", branches" if any(cb.term(x)["k"] == "switch" for x in cb.reachable) else "")
+            key = "C05.BIND:getter-is-plain-lookup:%s" % root.path.rsplit("::", 1)[-1]
+            rep.add("C05.BIND", key, ok, b.where(bb), "the get_value closure handed to build_context is a plain lookup in the argument map (Some for every key the map has)"
+                    + ("" if ok else " — VIOLATED: " + why + " — a key that is listed but answered None hits build_context's `unreachable!` / is treated as missing"))
+            # the keys handed over come from `.keys()` of a map
+            kl = tr.operand(t["args"][1])
+            ok = bool(kl) and all(l.kind == "call" and (l.detail[0].endswith("::keys") or l.detail[0].endswith("Iterator::map") or l.detail[0].endswith("Iterator::filter_map")) for l in kl)
+            rep.add("C05.BIND", "C05.BIND:keys-from-the-map:%s" % root.path.rsplit("::", 1)[-1], ok, b.where(bb), "provided_keys is the key iterator of the argument map"
+                    + ("" if ok else " — VIOLATED: %s" % sorted(leaf_str(l) for l in kl)[:2]))
+    rep.floor("C05.BIND", "build_context call sites [%s]" % cfg, n, 2)
